@@ -371,6 +371,13 @@ fn main() {
                 if small || sel.chance(1, 2) {
                     emit!("f64", "deque_to", "f", true, &v.f_coq, format!("{:?}", v.f), |w, mp| call_to!(fi, dq_f, w, mp, len));
                 }
+                // the same series through a REVERSED contiguous ndarray view (stride -1; ndarray fast path = index body)
+                if small || sel.chance(1, 3) {
+                    let rev_arr = tevec::export::ndarray::Array1::from_vec(v.f.iter().rev().cloned().collect::<Vec<f64>>());
+                    let nd_rev: tevec::export::ndarray::ArrayView1<f64> = rev_arr.slice(tevec::export::ndarray::s![..;-1]);
+                    emit!("f64", "nd_rev", "f", true, &v.f_coq, format!("{:?}", v.f),
+                          |w, mp| call_ret!(fi, nd_rev, w, mp, Vec<f64>, f64, Vec<f64>, f64));
+                }
                 // f64 -> Option<f64> outputs
                 if sel.chance(1, 3) {
                     emit!("f64->optf64", "vec", "f", true, &v.f_coq, format!("{:?}", v.f),
